@@ -615,6 +615,37 @@ func propC17b(t *rapid.T) {
 		wg.Add(1)
 		go client(c * 4)
 	}
+	// a client that only builds and signs (signing looks addresses up in the keystore's address maps,
+	// which the address client below extends at the same time)
+	wg.Add(1)
+	go func() {
+		defer wg.Done()
+		defer func() {
+			if r := recover(); r != nil {
+				panics <- fmt.Sprintf("signing client panicked: %v\n%s", r, debug.Stack())
+			}
+		}()
+		for n := 0; ; n++ {
+			select {
+			case <-stop:
+				return
+			default:
+			}
+			k := n % len(ids)
+			W.UseWallet(ids[k])
+			if hexTx, _, err := W.AutoCreateRawTransaction(map[string]massutil.Amount{dest.EncodeAddress(): amountOf(20000000)}, 0, massutil.ZeroAmount(), "", "", nil); err == nil {
+				raw, _ := hex.DecodeString(hexTx)
+				var mtx wire.MsgTx
+				if mtx.SetBytes(raw, wire.Packet) == nil {
+					W.SignRawTx([]byte(passes[k]), "ALL", &mtx)
+					W.ClearUsedUTXOMark(&mtx)
+				}
+			} else {
+				time.Sleep(200 * time.Microsecond)
+			}
+			atomic.AddInt64(&calls, 1)
+		}
+	}()
 	// the address client: asks for new addresses while every few milliseconds one commit fails
 	wg.Add(2)
 	go func() {
@@ -760,4 +791,5 @@ func propC17b(t *rapid.T) {
 
 func TestC17Race(t *testing.T) {
 	t.Run("workload", rapid.MakeCheck(propC17b))
+	t.Run("pairs", rapid.MakeCheck(propC17Pairs))
 }
